@@ -177,7 +177,12 @@ func PoolKey(slot int, kind string) *KeyPair {
 	if k, ok := pool[id]; ok {
 		return k
 	}
-	k := GenKey(id, kind)
+	var k *KeyPair
+	if IsSKKind(kind) {
+		k = GenSKKey(id, kind)
+	} else {
+		k = GenKey(id, kind)
+	}
 	pool[id] = k
 	return k
 }
